@@ -33,12 +33,14 @@ def op_pool():
     pool.append(["redirect", "/t", 302])
     pool.append(["nocontent", 204])
     pool.append(["writeheader", 500])
+    pool.append(["htmlwith", "h", 418])
+    pool.append(["formatted", 422, "m"])
     return pool
 
 
 def rand_op(rng):
     k = rng.choice(["status", "status", "header", "header", "cookie", "write", "write", "html", "json",
-                    "redirect", "nocontent", "writeheader"])
+                    "redirect", "nocontent", "writeheader", "htmlwith", "formatted"])
     if k == "status":
         return [k, rng.choice(CODES)]
     if k == "header":
@@ -47,6 +49,10 @@ def rand_op(rng):
         return [k, rng.choice(["sid", "t"]), rng.choice(["7", "x9"])]
     if k in ("write", "html"):
         return [k, rng.choice(BODIES)]
+    if k == "htmlwith":
+        return [k, rng.choice(BODIES), rng.choice(CODES)]
+    if k == "formatted":
+        return [k, rng.choice([200, 201, 404, 422, 500]), rng.choice(["m", "not found"])]
     if k == "json":
         return [k, json.dumps(rng.choice(BODIES))]
     if k == "redirect":
@@ -74,7 +80,20 @@ def coq_op(o):
         return "ONoContent %s" % coq_z(o[1])
     if k == "writeheader":
         return "OWriteHeader %s" % coq_z(o[1])
+    if k == "htmlwith":
+        return "OHTMLWith %s %s" % (coq_string(o[1]), coq_z(o[2]))
+    if k == "formatted":
+        return "OFormatted %s %s" % (coq_z(o[1]), coq_string(formatted_body(o[1], o[2])))
     raise ValueError(k)
+
+
+def formatted_body(code, msg):
+    # defaultFormattedPayload: object {code, message, data, timestamp} in insertion order;
+    # the harness normalises the timestamp to 0
+    return '{"code":%d,"message":%s,"data":null,"timestamp":0}' % (code, json.dumps(msg))
+
+
+COMMITTING = ("write", "html", "json", "redirect", "nocontent", "writeheader", "htmlwith", "formatted")
 
 
 def coq_case(ops, obs):
@@ -162,7 +181,7 @@ def main(ck):
                     4: "commit_at_most_once(impl)"}
     for j, cls in sorted(bad.items()):
         c, o = cases[idxmap[j]], o_ops[idxmap[j]]
-        first_commit = next((x[0] for x in c["ops"] if x[0] in ("write", "html", "json", "redirect", "nocontent", "writeheader")), "none")
+        first_commit = next((x[0] for x in c["ops"] if x[0] in COMMITTING), "none")
         key = "ops:%s:clauses=%s:commit=%s" % (c["mode"], "".join(map(str, cls)), first_commit)
         if 2 in cls or 4 in cls:
             ck.violation(key, {"case": c, "impl_out": o, "clause": [clause_names[x] for x in cls]})
@@ -188,7 +207,7 @@ def main(ck):
             continue
         distinct.add(key)
         kinds = [x[0] for x in c["ops"]]
-        commits = [k for k in kinds if k in ("write", "html", "json", "redirect", "nocontent", "writeheader")]
+        commits = [k for k in kinds if k in COMMITTING]
         # non-trivial: something is set before a commit, or something happens after a commit
         if commits and len(kinds) >= 2:
             nontriv += 1
@@ -203,5 +222,5 @@ def main(ck):
     ck.cov["exhaustive_ops_len"] = 3 if ck.tier == "quick" else 4
     ck.finish(level="proof", evaluations=len(cases) + len(mcases),
               distinct_nontrivial=nontriv + mdistinct,
-              rule="op sequences: all sequences up to the stated length over a 13-op pool (go-level), every single op and ordered pair at script level, seeded random sequences of length 1..12; middleware stacks: all sub-multisets orderings of {-1,0,0,1,5} plus seeded random; non-trivial = distinct sequence with a committing op and at least one other op (ops) / more than one entry (middleware)",
+              rule="op sequences: all sequences up to the stated length over a 15-op pool (go-level), every single op and ordered pair at script level, seeded random sequences of length 1..12; middleware stacks: all sub-multisets orderings of {-1,0,0,1,5} plus seeded random; non-trivial = distinct sequence with a committing op and at least one other op (ops) / more than one entry (middleware)",
               traces=len(terms) + len(mterms))
